@@ -188,6 +188,7 @@ if __name__ == '__main__':
     elif a[0] == 'detect': cmd_detect([x for x in a[1:] if not x.startswith('--')], all_props='--all-props' in a)
     elif a[0] == 'sdetect': cmd_detect_scratch([x for x in a[1:] if not x.startswith('--')], all_props='--all-props' in a)
     elif a[0] == 'table': cmd_table()
+    elif a[0] in ('benign', 'applylog'): pass
 
 
 def _benign_one(i):
@@ -233,3 +234,20 @@ def cmd_benign(ids, jobs=3):
 
 if __name__ == '__main__' and sys.argv[1:2] == ['benign']:
     cmd_benign([x for x in sys.argv[2:] if not x.startswith('--')])
+
+
+def cmd_applylog(path):
+    """take over the results of an sdetect run made elsewhere (e.g. from a `vp run` snapshot): lines `<id> DETECTED|missed|broken {...}`"""
+    import ast
+    n = 0
+    for line in open(path):
+        m = re.match(r'^(C\d\d-\w+) (DETECTED|missed|broken) (\{.*\})\s*$', line)
+        if not m or not os.path.exists(meta_path(m.group(1))): continue
+        mm = load_meta(m.group(1))
+        mm['detected_by'] = ast.literal_eval(m.group(3)); mm['detect_props_run'] = [mm['property']]
+        save_meta(m.group(1), mm); n += 1
+    print('updated', n, 'seeds')
+
+
+if __name__ == '__main__' and sys.argv[1:2] == ['applylog']:
+    cmd_applylog(sys.argv[2])
